@@ -115,6 +115,8 @@ pub struct ObsHistory {
     pub shared: bool,
     pub init: Val,
     pub ops: Vec<OOp>,
+    /// 0 = the usual bounds (5 subscribers, 4 owners, 3 weak references); otherwise the bound for all three
+    pub many: usize,
 }
 
 impl ObsHistory {
@@ -645,6 +647,7 @@ fn run_inner<F: Fl>(h: &ObsHistory) -> Result<OFacts, Div> {
     }
     let mut m = Model { value: h.init, version: 1, closed: false, unique: !h.shared, subs: vec![] };
     let mut f = OFacts::default();
+    let (max_subs, max_owners, max_weaks) = if h.many > 0 { (h.many, h.many, h.many) } else { (5, 4, 3) };
     macro_rules! bail {
         ($tag:expr, $($arg:tt)*) => {
             return Err(Div { prop: tag(a, $tag), what: format!($($arg)*) })
@@ -877,7 +880,7 @@ fn run_inner<F: Fl>(h: &ObsHistory) -> Result<OFacts, Div> {
                     Res::Value(v)
                 }
                 OOp::Clone(hh) => {
-                    if m.unique || w.owners.is_empty() || w.owners.len() >= 4 {
+                    if m.unique || w.owners.is_empty() || w.owners.len() >= max_owners {
                         break 'op Res::Skipped;
                     }
                     let c = F::s_clone(&w.owners[hh % w.owners.len()]);
@@ -908,7 +911,7 @@ fn run_inner<F: Fl>(h: &ObsHistory) -> Result<OFacts, Div> {
                     Res::Unit
                 }
                 OOp::Downgrade(hh) => {
-                    if m.unique || w.owners.is_empty() || w.weaks.len() >= 3 {
+                    if m.unique || w.owners.is_empty() || w.weaks.len() >= max_weaks {
                         break 'op Res::Skipped;
                     }
                     let wk = F::s_downgrade(&w.owners[hh % w.owners.len()]);
@@ -916,7 +919,7 @@ fn run_inner<F: Fl>(h: &ObsHistory) -> Result<OFacts, Div> {
                     Res::Unit
                 }
                 OOp::Upgrade(wi) => {
-                    if w.weaks.is_empty() || w.owners.len() >= 4 {
+                    if w.weaks.is_empty() || w.owners.len() >= max_owners {
                         break 'op Res::Skipped;
                     }
                     let up = F::w_upgrade(&w.weaks[wi % w.weaks.len()]);
@@ -935,7 +938,7 @@ fn run_inner<F: Fl>(h: &ObsHistory) -> Result<OFacts, Div> {
                     Res::Upgraded(ok)
                 }
                 OOp::CloneWeak(wi) => {
-                    if w.weaks.is_empty() || w.weaks.len() >= 3 {
+                    if w.weaks.is_empty() || w.weaks.len() >= max_weaks {
                         break 'op Res::Skipped;
                     }
                     let c = F::w_clone(&w.weaks[wi % w.weaks.len()]);
@@ -966,7 +969,7 @@ fn run_inner<F: Fl>(h: &ObsHistory) -> Result<OFacts, Div> {
                 }
                 OOp::Subscribe(hh) | OOp::SubscribeReset(hh) => {
                     let live = w.subs.iter().filter(|s| s.is_some()).count();
-                    if live >= 5 {
+                    if live >= max_subs {
                         break 'op Res::Skipped;
                     }
                     let reset = matches!(op, OOp::SubscribeReset(_));
@@ -1085,7 +1088,7 @@ fn run_inner<F: Fl>(h: &ObsHistory) -> Result<OFacts, Div> {
                 }
                 OOp::SClone(si) | OOp::SCloneReset(si) => {
                     let live: Vec<usize> = (0..w.subs.len()).filter(|i| w.subs[*i].is_some()).collect();
-                    if live.is_empty() || live.len() >= 5 {
+                    if live.is_empty() || live.len() >= max_subs {
                         break 'op Res::Skipped;
                     }
                     let i = live[si % live.len()];
